@@ -4,6 +4,7 @@ package vfc02
 
 import (
 	"fmt"
+	"sort"
 	"strings"
 	"testing"
 
@@ -201,7 +202,7 @@ func TestVerifC02Run(t *testing.T) {
 						if vf.Violation(rt, vfKeyGFImplicit,
 							"GlobalFilter does not run a before/after pipeline that has filters but no explicit flow (a Pipeline with the same spec runs them in definition order)\n%s\nresults %s\nreal:      %s\nreference: %s",
 							vfGlobalFilterYAML(before, after), used, obs, ref) {
-							return
+							continue // known: keep checking the other scripts modulo that defect
 						}
 					}
 				}
@@ -210,6 +211,38 @@ func TestVerifC02Run(t *testing.T) {
 			}
 		}
 	})
+	if !t.Failed() {
+		vfHealth(t, vf, map[string]float64{
+			"jump-skipping>=1-node":     0.05,
+			"jump-skipping-END-node":    0.01,
+			"filter-instance-ran-twice": 0.05,
+			"END-suppresses-later-flow": 0.05,
+			"non-default-namespace":     0.10,
+			"mode=GlobalFilter.Handle":  0.05,
+			"stop=result->END":          0.02,
+			"stop=unmapped-result":      0.05,
+			"stop=END-node":             0.03,
+			"stop=ran-off-the-end":      0.03,
+		})
+	}
+}
+
+// vfHealth: the classes the non-triviality rule depends on must be populated (share of the
+// evaluations), else the run is inconclusive ("generator unhealthy"), never green.
+func vfHealth(t *testing.T, vf *vfCollector, floors map[string]float64) {
+	if vf.Evals < 2000 {
+		return // replay of a single case
+	}
+	names := make([]string, 0, len(floors))
+	for k := range floors {
+		names = append(names, k)
+	}
+	sort.Strings(names)
+	for _, k := range names {
+		if float64(vf.Classes[k]) < floors[k]*float64(vf.Evals) {
+			t.Fatalf("VF-INCONCLUSIVE generator unhealthy: class %q has %d of %d evaluations (floor %.0f%%)", k, vf.Classes[k], vf.Evals, floors[k]*100)
+		}
+	}
 }
 
 var _ = strings.Join
